@@ -44,6 +44,7 @@ KIND_NAMES = ('angle', 'intfloat', 'default', 'keyword', 'tuplelist', 'copy', 'm
 NOT_EQUIVALENT = {
     ('Interpolation.__call__', 'x', 'angle'): 'the result has the type of x: an Angle in gives an Angle out, a float a float',
     ('Interpolation.derivative', 'x', 'angle'): 'the result has the type of x: an Angle in gives an Angle out, a float a float',
+    ('Angle.reduce_dms', 'seconds', 'intfloat'): 'the seconds come back as given when no carry is needed: an int in, an int out',
     # documented ":type: int, float" but the Gregorian branch hands the value to datetime.date(), which refuses
     # floats (TypeError) -- a defect of the library reported to the coordinator, not a loosening of the check:
     ('Epoch.get_doy', 'yyyy', 'intfloat'): 'get_doy(2000.0, 1, 1) raises TypeError for years >= 1583 (datetime.date needs ints); reported',
@@ -314,7 +315,9 @@ class Forms(object):
                      ('datetime with a time of day', [{'datetime': [y, m, d, h, mi, s]}]),
                      ('Epoch(Epoch(y, m, d + f))', [{'EpochYMD': [y, m, frac]}]),
                      ('((y, m, d + f),)', [{'tuple': [y, m, frac]}])]
-            if y < 1:
+            try:
+                datetime.date(y, m, d)      # (a Julian-calendar leap day such as 1500-02-29 is no datetime date)
+            except ValueError:
                 D = [x for x in D if 'date' not in x[0]]
                 T = [x for x in T if 'datetime' not in x[0]]
             out.append(('dateforms', [(n, recv + sp) for (n, sp) in D]))
